@@ -217,35 +217,47 @@ func (x *cl) exec(op Op) {
 
 func newCl(cs *ev.Case, pt string, fail func(format string, a ...any)) *cl {
 	x := &cl{st: model.NewStore(), cs: cs, fail: fail, down: map[int]bool{}, paused: map[int]bool{}, visible: map[string]bool{}}
-	x.c = bb.NewCluster(5, map[string]string{"ptnum-pernode": pt})
-	x.c.Start()
-	// a request routed to a stopped (SIGSTOP) or just killed store can hang until the failure is detected: give up on it after
-	// 20 s and ask again, instead of spending the whole bounded-liveness window inside one request
-	x.c.SQL.HTTP.Timeout = 20 * time.Second
-	deadline := time.Now().Add(60 * time.Second)
-	for {
-		r, err := x.c.SQL.Query("", "create database "+db+" replicas 3", nil)
-		if err == nil && r.Err == "" {
-			break
+	// Bringing the cluster up is not part of the property: a start in which the replicated database does not accept its first
+	// write (raft groups not elected / partitions not assigned; seen in about 1 of 40 starts on a busy machine) is thrown away
+	// and repeated; only three such starts in a row are reported (as a harness problem, never as a violation).
+	var lastTail string
+	for attempt := 1; attempt <= 3; attempt++ {
+		x.c = bb.NewCluster(5, map[string]string{"ptnum-pernode": pt})
+		x.c.Start()
+		// a request routed to a stopped (SIGSTOP) or just killed store can hang until the failure is detected: give up on it
+		// after 20 s and ask again, instead of spending the whole bounded-liveness window inside one request
+		x.c.SQL.HTTP.Timeout = 20 * time.Second
+		ok := false
+		deadline := time.Now().Add(60 * time.Second)
+		for time.Now().Before(deadline) {
+			r, err := x.c.SQL.Query("", "create database "+db+" replicas 3", nil)
+			if err == nil && r.Err == "" {
+				ok = true
+				break
+			}
+			time.Sleep(500 * time.Millisecond)
 		}
-		if time.Now().After(deadline) {
-			bb.Fatal("create database with 3 replicas failed: %v %v", err, r)
+		if ok {
+			// ready when a write to the replicated database is accepted (raft groups elected)
+			ok = false
+			deadline = time.Now().Add(90 * time.Second)
+			for time.Now().Before(deadline) {
+				st, _ := x.c.SQL.Write(db, "", "ns", "warmup,host=w v=1i 1700000000000000000")
+				if st == 204 {
+					ok = true
+					break
+				}
+				time.Sleep(500 * time.Millisecond)
+			}
 		}
-		time.Sleep(500 * time.Millisecond)
+		if ok {
+			return x
+		}
+		lastTail = x.c.Tail(800)
+		cs.Class("cluster-start-repeated")
+		x.c.Destroy()
 	}
-	// the cluster is ready when a write to the replicated database is accepted (raft groups elected); a
-	// cluster that does not get there is a harness problem, not a finding
-	deadline = time.Now().Add(180 * time.Second)
-	for {
-		st, _ := x.c.SQL.Write(db, "", "ns", "warmup,host=w v=1i 1700000000000000000")
-		if st == 204 {
-			break
-		}
-		if time.Now().After(deadline) {
-			bb.Fatal("replicated database does not accept writes 180 s after start: %s", x.c.Tail(800))
-		}
-		time.Sleep(500 * time.Millisecond)
-	}
+	bb.Fatal("the replicated database did not accept its first write in three cluster starts: %s", lastTail)
 	return x
 }
 
